@@ -26,6 +26,8 @@ def alphabet(rng, k=0, uniq=[500]):
         nodegen.ccr(h, e, p), nodegen.ccr(h, e, "stranger.x"), nodegen.cca(h, e, p), nodegen.unk(h, e, p),
         # application ids announced in the other role only: nothing in common
         nodegen.cer(p, "", h, e, ",acct=4"), nodegen.cer(p, "3", h, e), nodegen.cer(p, "3", h, e, ",acct=4"),
+        # the peer writes its name with capitals (host identities compare without regard to case)
+        nodegen.cer(p.upper(), "4", h, e), nodegen.cer(p.capitalize(), "4+3", h, e, ",acct=3"),
         # a 2001 CEA is a 2001 CEA, whatever applications it lists (other ids, the other role, none at all)
         nodegen.cea(2001, p, h, e, auth="99"), nodegen.cea(2001, p, h, e, auth="3"),
         f"CE:0:0:{h}:{e}:rc=2001,oh={p},or={nodegen.REALM},ip=10.1.1.1,vid=9,pn=prod",
